@@ -17,6 +17,7 @@ import (
 	"time"
 	"unsafe"
 
+	"github.com/ory/x/configx"
 	"github.com/ory/x/logrusx"
 	"github.com/ory/x/watcherx"
 	"github.com/sirupsen/logrus"
@@ -291,9 +292,48 @@ func judgeFinal(hist []version, s sample, opl bool) string {
 		}
 	}
 	pf := perFileVersions(hist, len(hist))
+	// OPL re-parses all files together and publishes only when every file parses: at quiescence a
+	// file shows a valid version of it that is not older than the one it had at the last point of the
+	// history where every file was valid, and not newer than its last valid version
+	lastAllValid := 0
+	{
+		cur := map[string]version{}
+		for i, v := range hist {
+			cur[v.file] = v
+			all := true
+			for _, c := range cur {
+				if !c.valid {
+					all = false
+				}
+			}
+			if all {
+				lastAllValid = i + 1
+			}
+		}
+	}
+	lower := perFileVersions(hist, lastAllValid)
 	for f, vs := range pf {
 		want := vs[len(vs)-1]
 		if opl && !allValid {
+			var got []string
+			for _, n := range s.names {
+				if owner(hist, n) == f {
+					got = append(got, n)
+				}
+			}
+			from := 0
+			if lv := lower[f]; len(lv) > 0 {
+				from = len(lv) - 1
+			}
+			ok := false
+			for _, cand := range vs[from:] {
+				if key(cand) == key(got) {
+					ok = true
+				}
+			}
+			if !ok {
+				return fmt.Sprintf("at quiescence file %s shows {%s}; acceptable are its valid versions from the last all-valid point on: %v", f, key(got), vs[from:])
+			}
 			continue
 		}
 		if !opl && !last[f].valid && !last[f].rm {
@@ -441,12 +481,15 @@ func TestC19(t *testing.T) {
 	// scheduler in pass-through mode. Polls until the expected final state shows; a timeout is
 	// recorded as inconclusive, never as a violation (wall-clock time is not an oracle).
 	realOK, realInconclusive := 0, 0
+	reloadCases := 0
 	if shard == 0 {
 		realOK, realInconclusive = realFileConformance(t, run, l)
+		reloadCases = configReloadKeepsLastGood(t, run, l)
 	}
 	run.FinishPart(map[string]any{
 		"real_watcher_histories_confirmed":    realOK,
 		"real_watcher_histories_inconclusive": realInconclusive,
+		"config_reload_cases":                 reloadCases,
 		"states":                        cov.states,
 		"transitions":                   cov.trans,
 		"traces_validated_against_impl": cov.execs,
@@ -547,4 +590,86 @@ func realFileConformance(t *testing.T, run *ev.Run, l *logrusx.Logger) (ok, inco
 		}
 	}
 	return
+}
+
+
+// configReloadKeepsLastGood: Config-level histories on real files. A watched file is loaded in a
+// valid version, then changes to invalid content (or stays valid), then ANY change of the main
+// configuration file is signalled (keto's own config-watcher callback): the namespaces served
+// afterwards must still be a valid version of the file - never nothing. Sequential and
+// deterministic: whether or not the old watcher has already seen the bad content, a manager that
+// is rebuilt at this point loads what is on disk.
+func configReloadKeepsLastGood(t *testing.T, run *ev.Run, l *logrusx.Logger) int {
+	type fam struct {
+		name, file, v1, v2, bad string
+		nsValue                 func(path, dir string) any
+		want1, want2            []string
+	}
+	fams := []fam{
+		{"legacy-uri", "n.json", `{"id": 1, "name": "A"}`, `{"id": 2, "name": "A2"}`, "{{{ not json",
+			func(path, dir string) any { return "file://" + dir }, []string{"A"}, []string{"A2"}},
+		{"opl-file", "f.ts", oplDoc("A", "B"), oplDoc("A2"), "class A implements Namespace {",
+			func(path, dir string) any { return map[string]any{"location": "file://" + path} }, []string{"A", "B"}, []string{"A2"}},
+	}
+	cases := 0
+	for _, f := range fams {
+		for _, second := range []string{"bad", "v2", "none"} {
+			for _, events := range []int{1, 2} {
+				dir := t.TempDir()
+				path := dir + "/" + f.file
+				if err := os.WriteFile(path, []byte(f.v1), 0o644); err != nil {
+					t.Fatal(err)
+				}
+				ctx, cancel := context.WithCancel(context.Background())
+				ctx = configx.ContextWithConfigOptions(ctx, configx.WithValues(map[string]any{
+					config.KeyDSN: "memory", "log.level": "panic", config.KeyNamespaces: f.nsValue(path, dir)}))
+				k, err := config.NewDefault(ctx, nil, l)
+				if err != nil {
+					cancel()
+					t.Fatalf("INFRA: config: %v", err)
+				}
+				get := func() []string {
+					nm, err := k.NamespaceManager()
+					if err != nil {
+						return []string{"error:" + err.Error()}
+					}
+					nn, _ := nm.Namespaces(ctx)
+					var out []string
+					for _, n := range nn {
+						out = append(out, n.Name)
+					}
+					sort.Strings(out)
+					return out
+				}
+				first := get()
+				acceptable := [][]string{f.want1}
+				switch second {
+				case "bad":
+					_ = os.WriteFile(path, []byte(f.bad), 0o644)
+				case "v2":
+					_ = os.WriteFile(path, []byte(f.v2), 0o644)
+					acceptable = append(acceptable, f.want2)
+				}
+				for i := 0; i < events; i++ {
+					config.VerifConfigChanged(k)
+				}
+				after := get()
+				cases++
+				ok := key(first) == key(f.want1)
+				okAfter := false
+				for _, a := range acceptable {
+					if key(after) == key(a) {
+						okAfter = true
+					}
+				}
+				if !ok || !okAfter {
+					run.Violation("config-reload-loses-last-good:"+f.name+":"+second,
+						fmt.Sprintf("[%s] file loaded as %v, then changed to %s, then %d configuration-change event(s): namespaces served afterwards %v (acceptable: %v)", f.name, first, second, events, after, acceptable),
+						map[string]any{"family": f.name, "second_version": second, "config_change_events": events})
+				}
+				cancel()
+			}
+		}
+	}
+	return cases
 }
